@@ -81,6 +81,13 @@ fn main() {
     }
     return;
   }
+  if args[0] == "tsemit" {
+    let text = std::fs::read_to_string(&args[1]).unwrap();
+    let case: props::c09::Case = serde_json::from_str(&text).unwrap();
+    let p = props::c09::prepare(&case, None);
+    println!("{}", fc::dump(&p.graph));
+    return;
+  }
   if args[0] == "c12rec" {
     let text = std::fs::read_to_string(&args[1]).unwrap();
     let case: props::c12::Case = serde_json::from_str(&text).unwrap();
